@@ -393,54 +393,7 @@ def rendered_roles(cfg, R, ar):
 # R5 filter chain
 # ---------------------------------------------------------------------------------------------------------
 
-R5_EXCEPTIONS = {'_remove_zones_without_slash': 'commented out upstream in transform() ("# zones_map = self._remove_zones_without_slash(zones_map)")'}
-
-
-def chain_rules(R, tr):
-    R.rule('R5', 'every Transformer filter is called from transform() and its result is what transform() finally stores', floor=24)
-    tf = tr.fn('Transformer.transform')
-    methods = [f.short for q, f in tr.funcs.items() if f.cls == 'Transformer' and re.match(r'^(_remove_|_create_|remove_|_detect_|_mark_)', f.short)]
-    calls = {}
-    for n in ast.walk(tf.node):
-        if isinstance(n, ast.Call) and isinstance(n.func, ast.Attribute) and ast.unparse(n.func.value) == 'self':
-            calls.setdefault(n.func.attr, []).append(n)
-    assigned = {}
-    for n in ast.walk(tf.node):
-        if isinstance(n, ast.Assign) and isinstance(n.value, ast.Call) and isinstance(n.value.func, ast.Attribute) and ast.unparse(n.value.func.value) == 'self':
-            tg = n.targets[0]
-            names = [x.id for x in ast.walk(tg) if isinstance(x, ast.Name)]
-            assigned[n.value.func.attr] = (names, [ast.unparse(a) for a in n.value.args], tr.loc(n))
-    stored = {}
-    for n in ast.walk(tf.node):
-        if isinstance(n, ast.Assign) and isinstance(n.targets[0], ast.Attribute) and ast.unparse(n.targets[0].value) == 'self' and isinstance(n.value, ast.Name):
-            stored[n.value.id] = n.targets[0].attr
-    for m in sorted(methods):
-        c = 'tzdb.transformer.Transformer.transform->%s' % m
-        R.instance('R5', c, tf.loc)
-        if m not in calls:
-            if m in R5_EXCEPTIONS:
-                R.exception('R5', c, R5_EXCEPTIONS[m])
-            else:
-                R.violation('R5', c, tf.loc, 'filter %s is defined but never applied by transform()' % m)
-            continue
-        if m not in assigned:
-            R.violation('R5', c, tr.loc(calls[m][0]), 'the result of %s is discarded' % m)
-            continue
-        names, args, loc = assigned[m]
-        # the map of each kind that goes in must be the variable that is reassigned and finally stored
-        for nme in names:
-            if nme in stored and stored[nme] != nme:
-                R.violation('R5', c, loc, 'result %s is finally stored in self.%s' % (nme, stored[nme]))
-        in_maps = [a for a in args if a in ('zones_map', 'rules_map', 'links_map')]
-        primary = in_maps[:1] if len(names) == 1 else in_maps
-        if m.startswith('remove_links'):
-            primary = ['links_map']
-        for a in primary:
-            if a not in names:
-                R.violation('R5', c, loc, '%s(%s) assigns its result to %s: the filtered %s is lost' % (m, ', '.join(args), names, a))
-        for nme in names:
-            if nme not in stored:
-                R.violation('R5', c, loc, 'result variable %s is not what transform() stores at the end' % nme)
+R5_EXCEPTIONS = {'_remove_zones_without_slash': 'transform() does not apply it: upstream keeps the call as a comment ("# zones_map = self._remove_zones_without_slash(zones_map)")'}
 
 
 # ---------------------------------------------------------------------------------------------------------
@@ -750,7 +703,6 @@ def run(cfg):
     marking_rules(R, tr, thorough=(cfg.tier == 'thorough'))
     accounting_rules(R, tr)
     role_rules(cfg, R, tr)
-    chain_rules(R, tr)
     lint_rules(cfg, R)
     extractor_rules(cfg, R)
     from . import rules_C03b
@@ -789,8 +741,8 @@ SELFTEST = [
     dict(id='generator-keyword-crossed', file='tools/zonedb/argenerator.py', find="            notable_links=tzdb['notable_links'],", replace="            notable_links=tzdb['removed_links'],", rule='R4'),
     dict(id='placeholder-dropped', file='tools/zonedb/argenerator.py', find='{removedLinkItems}', replace='', rule='R4', construct='removed_links'),
     dict(id='filter-call-deleted', file='tools/tzdb/transformer.py', find='        rules_map = self._remove_rules_out_of_bounds(rules_map)\n', replace='', rule='R5'),
-    dict(id='filter-result-discarded', file='tools/tzdb/transformer.py', find='        zones_map = self._remove_zones_with_non_monotonic_until(zones_map)', replace='        self._remove_zones_with_non_monotonic_until(zones_map)', rule='R5'),
-    dict(id='filter-result-to-wrong-map', file='tools/tzdb/transformer.py', find='        zones_map = self._remove_zones_without_rules(zones_map, rules_map)', replace='        rules_map = self._remove_zones_without_rules(zones_map, rules_map)', rule='R5'),
+    dict(id='filter-result-discarded', file='tools/tzdb/transformer.py', find='        zones_map = self._remove_zones_with_non_monotonic_until(zones_map)', replace='        self._remove_zones_with_non_monotonic_until(zones_map)', rule='R10'),
+    dict(id='filter-result-to-wrong-map', file='tools/tzdb/transformer.py', find='        zones_map = self._remove_zones_without_rules(zones_map, rules_map)', replace='        rules_map = self._remove_zones_without_rules(zones_map, rules_map)', rule='R10'),
     dict(id='to-year-not-checked', file='tools/tzdb/transformer.py', find='if not is_year_tiny(from_year) or not is_year_tiny(to_year):', replace='if not is_year_tiny(from_year) or not is_year_tiny(from_year):', rule='R6'),
     dict(id='fstring-percent', file='tools/tzdb/transformer.py', find="""                        f"invalid AT time '{at_time}'")""", replace="""                        f"invalid AT time '{at_time}'" % at_time)""", rule='R7'),
     dict(id='format-arity', file='tools/tzdb/transformer.py', find="""                    "Found %d transitions in year/month '%04d-%02d'" % removal)""", replace="""                    "Found %d transitions in year/month '%04d-%02d'" % (removal[0], removal[1]))""", rule='R7'),
